@@ -279,7 +279,7 @@ def sensors_batch(case):
             Comm.serial = fake
             try:
                 mon = SerM.SerialMonitor(r.choice([9600, 115200, 1]), port=r.choice(["COM4", "/dev/ttyUSB0"]))
-                vals = [r.choice(["hello", "", "ünï ✓ 端", 0, -5, 3.14, 1e20, True, None, Weird(), [1, 2], "a\nb", 0.1 + 0.2, b"x"])
+                vals = [r.choice(["hello", "", "ünï ✓ 端", 0, -5, 3.14, 1e20, True, None, Weird(), [1, 2], "a\nb", 0.1 + 0.2, b"x", "done\n", "\n", "x\r\n", "tail ", " lead", "\t"])
                         for _ in range(r.randint(1, 6))]
                 for v in vals:
                     ret = mon.write(v)
